@@ -844,3 +844,104 @@ Qed.
 Lemma rowmajor_linear_lemma : forall dims k, Forall (fun d => 0 < d) dims -> 0 <= k < zprod dims ->
   spec_offset dims (spec_index dims k) = k.
 Proof. intros. rewrite spec_offset_index by assumption. apply Z.mod_small. assumption. Qed.
+
+(* ------------------------------------------------------------------------------------------ *)
+(** * Decimal text: what hdp prints parses back to the value; hdfimport's tokeniser reads what was written *)
+
+Definition dstep (a c : Z) : Z := a * 10 + (c - 48).
+
+Lemma dec_rev_val : forall f n, 0 <= n < 2 ^ Z.of_nat f -> fold_right (fun c a => dstep a c) 0 (dec_rev f n) = n.
+Proof.
+  induction f as [|f IH]; intros n H.
+  - simpl in *. lia.
+  - cbn [dec_rev fold_right]. unfold dstep at 1. destruct (Z.ltb_spec n 10) as [L|L].
+    + cbn [fold_right]. rewrite Z.mod_small by lia. lia.
+    + rewrite IH.
+      * pose proof (Z.div_mod n 10 ltac:(lia)). lia.
+      * rewrite Nat2Z.inj_succ, Z.pow_succ_r in H by lia. split; [apply Z.div_pos; lia|].
+        apply Z.div_lt_upper_bound; lia.
+Qed.
+
+Lemma dec_rev_digits : forall f n, 0 <= n -> Forall (fun c => is_digit c = true) (dec_rev f n).
+Proof.
+  induction f as [|f IH]; intros n H; [constructor|]. cbn [dec_rev]. constructor.
+  - unfold is_digit. pose proof (Z.mod_pos_bound n 10 ltac:(lia)). apply andb_true_iff. split; apply Z.leb_le; lia.
+  - destruct (n <? 10); [constructor|]. apply IH. apply Z.div_pos; lia.
+Qed.
+
+Lemma fmt_nat_val n : 0 <= n -> fold_left dstep (fmt_nat n) 0 = n.
+Proof.
+  intros H. unfold fmt_nat. rewrite <- fold_left_rev_right, rev_involutive. apply dec_rev_val.
+  split; [assumption|]. rewrite Nat2Z.inj_succ, Z2Nat.id by apply Z.log2_nonneg.
+  destruct (Z.eq_dec n 0) as [->|]; [simpl; lia|]. apply Z.log2_spec. lia.
+Qed.
+
+Lemma fmt_nat_digits n : 0 <= n -> Forall (fun c => is_digit c = true) (fmt_nat n).
+Proof. intros H. unfold fmt_nat. apply Forall_rev. apply dec_rev_digits. assumption. Qed.
+
+Lemma fmt_nat_nonempty n : fmt_nat n <> [].
+Proof. unfold fmt_nat. cbn [dec_rev]. intros E. apply (f_equal (@length Z)) in E. rewrite rev_length in E. simpl in E. lia. Qed.
+
+Definition no_digit_head (s : list Z) : Prop := match s with [] => True | c :: _ => is_digit c = false end.
+
+Lemma scan_digits_app : forall l acc rest, Forall (fun c => is_digit c = true) l -> no_digit_head rest ->
+  scan_digits (l ++ rest) acc = (fold_left dstep l acc, rest).
+Proof.
+  induction l as [|c l IH]; intros acc rest Hl Hr.
+  - simpl. destruct rest as [|c r]; [reflexivity|]. simpl in *. rewrite Hr. reflexivity.
+  - inversion Hl; subst. simpl. rewrite H1. apply IH; assumption.
+Qed.
+
+Lemma skip_space_app : forall ws s, Forall (fun c => is_space c = true) ws ->
+  (match s with [] => True | c :: _ => is_space c = false end) -> skip_space (ws ++ s) = s.
+Proof.
+  induction ws as [|w ws IH]; intros s Hw Hs.
+  - simpl. destruct s as [|c r]; [reflexivity|]. simpl. rewrite Hs. reflexivity.
+  - inversion Hw; subst. simpl. rewrite H1. apply IH; assumption.
+Qed.
+
+Lemma digit_not_space c : is_digit c = true -> is_space c = false.
+Proof. unfold is_digit, is_space. intros H. apply andb_true_iff in H. destruct H as [H1 H2]. apply Z.leb_le in H1, H2.
+  destruct (Z.eqb_spec c 32); [lia|]. destruct (Z.leb_spec 9 c), (Z.leb_spec c 13); simpl; try reflexivity; lia. Qed.
+
+(** fscanf("%d") applied to white space followed by the decimal text of z returns z and stops right after it *)
+Lemma scan_int_fmt_dec : forall ws z rest, Forall (fun c => is_space c = true) ws -> no_digit_head rest ->
+  scan_int (ws ++ fmt_dec z ++ rest) = Some (z, rest).
+Proof.
+  intros ws z rest Hw Hr. unfold scan_int, fmt_dec. destruct (Z.ltb_spec z 0) as [L|L].
+  - rewrite skip_space_app by (assumption || reflexivity). cbn [app].
+    pose proof (fmt_nat_digits (- z) ltac:(lia)) as D. pose proof (fmt_nat_nonempty (- z)) as NE.
+    change (45 =? 45) with true. cbn [orb].
+    destruct (fmt_nat (- z)) as [|d l] eqn:E; [contradiction|]. cbn [app]. inversion D; subst. rewrite H1.
+    change (d :: l ++ rest) with ((d :: l) ++ rest). rewrite scan_digits_app by assumption.
+    rewrite <- E, fmt_nat_val by lia. f_equal. f_equal. lia.
+  - pose proof (fmt_nat_digits z L) as D. pose proof (fmt_nat_nonempty z) as NE.
+    destruct (fmt_nat z) as [|d l] eqn:E; [contradiction|]. inversion D; subst.
+    rewrite skip_space_app; [|assumption|cbn [app]; apply digit_not_space; assumption]. cbn [app].
+    assert (d =? 45 = false /\ d =? 43 = false) as [-> ->].
+    { unfold is_digit in H1. apply andb_true_iff in H1. destruct H1 as [A B]. apply Z.leb_le in A, B. split; apply Z.eqb_neq; lia. }
+    cbn [orb]. rewrite H1. change (d :: l ++ rest) with ((d :: l) ++ rest). rewrite scan_digits_app by assumption.
+    rewrite <- E, fmt_nat_val by lia. reflexivity.
+Qed.
+
+(** a token list: each number preceded by non-empty white space *)
+Definition render (toks : list (list Z * Z)) : list Z := flat_map (fun t => fst t ++ fmt_dec (snd t)) toks.
+Definition good_sep (ws : list Z) : Prop := ws <> [] /\ Forall (fun c => is_space c = true) ws.
+
+Lemma space_not_digit c : is_space c = true -> is_digit c = false.
+Proof. intros H. destruct (is_digit c) eqn:E; [|reflexivity]. rewrite (digit_not_space c E) in H. discriminate. Qed.
+
+Lemma render_no_digit_head toks rest : Forall (fun t => good_sep (fst t)) toks -> no_digit_head rest -> no_digit_head (render toks ++ rest).
+Proof.
+  intros H Hr. destruct toks as [|[ws z] toks]; [assumption|]. inversion H; subst. destruct H2 as [NE F]. simpl in *.
+  destruct ws as [|w ws]; [contradiction|]. inversion F; subst. simpl. apply space_not_digit. assumption.
+Qed.
+
+Lemma scan_ints_render : forall toks bits rest, Forall (fun t => good_sep (fst t)) toks -> no_digit_head rest ->
+  scan_ints (length toks) bits (render toks ++ rest) = Some (map (fun t => swrap bits (snd t)) toks, rest).
+Proof.
+  induction toks as [|[ws z] toks IH]; intros bits rest H Hr; [reflexivity|].
+  inversion H; subst. cbn [length scan_ints render flat_map fst snd]. rewrite <- !app_assoc.
+  rewrite scan_int_fmt_dec; [|apply H2|apply render_no_digit_head; assumption].
+  fold (render toks). rewrite IH by assumption. reflexivity.
+Qed.
